@@ -387,7 +387,26 @@ class Interp:
         if m:
             c = self.val(env, m.group(2), 'i1')
             a, b = self.val(env, m.group(4), m.group(3)), self.val(env, m.group(5), m.group(3))
-            env[m.group(1)] = z3.simplify(z3.If(c == 1, a, b))
+            cc = z3.simplify(c == 1)
+            if not z3.is_true(cc) and not z3.is_false(cc) and z3.is_bv_value(z3.simplify(a)) and z3.is_bv_value(z3.simplify(b)) \
+                    and m.group(3) != 'i1':
+                # both arms are constants (typically indices / offsets that end up in an address): fork like a branch
+                # instead of building an If-term, so that pointers stay concrete
+                ft, ff = self.feasible(cond, cc), self.feasible(cond, z3.Not(cc))
+                if ft and ff:
+                    fr2 = [f.copy() for f in frames]
+                    fr2[-1].env[m.group(1)] = b
+                    work.append((fr2, cond + [z3.Not(cc)], mem.copy()))
+                    cond.append(cc)
+                    env[m.group(1)] = a
+                elif ft:
+                    env[m.group(1)] = a
+                elif ff:
+                    env[m.group(1)] = b
+                else:
+                    return ('dead',)
+                return None
+            env[m.group(1)] = z3.simplify(z3.If(cc, a, b))
             return None
         m = re.match(r'(%[\w.]+) = (zext|sext|trunc) (\S+) (\S+) to (\S+)', ins)
         if m:
